@@ -118,8 +118,13 @@ class SchedProp:
     # -------------------------------------------------------------------------------------------
     def oracle(self, case: SchedCase, groups: list[Group]) -> list[str]:
         from oracle_sched import exc_oracle, sched_oracle
-        out = [m for p, m in sched_oracle(groups, case.executor) if p == self.pid]
+        found = sched_oracle(groups, case.executor)
+        out = [m for p, m in found if p == self.pid]
         if self.pid == 'C10':
+            # "a failure while a job's next run is being computed must not cause that job to be executed again for
+            # the same due time": duplicate executions in histories with failing triggers
+            if any(ln.startswith('op create') and ln.split()[-1] != '-' for ln in case.lines):
+                out += [m for p, m in found if p == 'C02' and 'for the run time' in m]
             out += [m for p, m in exc_oracle(case.lines, groups) if p == 'C10']
             out += self.isolation_oracle(case, groups)
         return out
